@@ -19,6 +19,7 @@ import (
 	"log"
 	"os"
 	"os/exec"
+	"path"
 	"path/filepath"
 	"runtime/debug"
 	"sort"
@@ -49,7 +50,8 @@ type wsOp struct {
 	files   []bfile
 	srcs    []string
 	targets []string
-	ar      bool // Config.AlwaysRebuild: the build cache never answers, only buildNode's memo prevents a second execution
+	wd      string // work dir of the builder, relative to <root>/src ("" = the workspace root)
+	ar      bool   // Config.AlwaysRebuild: the build cache never answers, only buildNode's memo prevents a second execution
 }
 
 func hs(s string) string { return hx.Hex([]byte(s)) }
@@ -104,6 +106,9 @@ func (o *wsOp) line() string {
 		bf = strings.Join(fs, ";")
 	}
 	l := fmt.Sprintf("run dirs=%s bf=%s src=%s t=%s", hlist(o.dirs, ","), bf, hlist(o.srcs, ","), hlist(o.targets, ","))
+	if o.wd != "" {
+		l += " wd=" + hs(o.wd)
+	}
 	if o.ar {
 		l += " ar=1"
 	}
@@ -133,6 +138,9 @@ func parseOp(line string) (*wsOp, bool) {
 		return nil, false
 	}
 	o.dirs, o.srcs, o.targets = unlist(d, ","), unlist(s, ","), unlist(t, ",")
+	if v, ok := kv(ws[1:], "wd"); ok {
+		o.wd = string(hx.UnHex(v))
+	}
 	if v, ok := kv(ws[1:], "ar"); ok && v == "1" {
 		o.ar = true
 	}
@@ -254,7 +262,12 @@ func childRun(work string, n int, line string) string {
 	log.SetOutput(&buf)
 	log.SetFlags(0)
 	defer log.SetOutput(io.Discard)
-	b, err := caco3.NewBuilder(root, &caco3.Config{Root: root, AlwaysRebuild: o.ar})
+	workDir := root
+	if o.wd != "" {
+		workDir = filepath.Join(root, "src", filepath.FromSlash(o.wd))
+		os.MkdirAll(workDir, 0o755)
+	}
+	b, err := caco3.NewBuilder(workDir, &caco3.Config{Root: root, AlwaysRebuild: o.ar})
 	if err != nil {
 		return "err-builder"
 	}
@@ -472,6 +485,25 @@ func read(o *wsOp) *reading {
 	return r
 }
 
+// specTargets: the requested targets as the property reads them: with the
+// builder started in <root>/src/<wd>, an absolute target names a node from the
+// workspace root, a relative one from the work dir (and cannot climb out of it);
+// from the workspace root itself targets are node names
+func specTargets(o *wsOp) []string {
+	if o.wd == "" {
+		return o.targets
+	}
+	var out []string
+	for _, t := range o.targets {
+		if strings.HasPrefix(t, "/") {
+			out = append(out, strings.TrimPrefix(path.Clean(t), "/"))
+		} else {
+			out = append(out, strings.TrimPrefix(path.Join("/", o.wd, path.Clean("/"+t)), "/"))
+		}
+	}
+	return out
+}
+
 // analyse: reachable set, cycle, dangling from the targets
 func (r *reading) analyse(o *wsOp) (reach map[string]bool, cycle, dangling bool) {
 	srcs := map[string]bool{}
@@ -504,7 +536,7 @@ func (r *reading) analyse(o *wsOp) (reach map[string]bool, cycle, dangling bool)
 		}
 		color[n] = 2
 	}
-	for _, t := range o.targets {
+	for _, t := range specTargets(o) {
 		dfs(t)
 	}
 	return
@@ -512,6 +544,20 @@ func (r *reading) analyse(o *wsOp) (reach map[string]bool, cycle, dangling bool)
 
 // judge evaluates the direct oracle on one implementation answer.
 func judge(o *wsOp, impl string) (key, desc string) {
+	key, desc = judge0(o, impl)
+	if key == "" || o.wd == "" {
+		return
+	}
+	switch {
+	case key == "spurious-error", key == "unreachable-rule-built", key == "reachable-rule-not-built", strings.HasPrefix(key, "error-missed"):
+		return "target-resolved-against-wrong-base", fmt.Sprintf(
+			"builder started in src/%s, targets %q mean the nodes %q (absolute: from the workspace root, relative: from the work dir), but: %s",
+			o.wd, o.targets, specTargets(o), desc)
+	}
+	return
+}
+
+func judge0(o *wsOp, impl string) (key, desc string) {
 	r := read(o)
 	if impl == "crash" || impl == "hang" {
 		what := map[string]string{"crash": "killed the process (stack overflow)", "hang": "did not return"}[impl]
@@ -893,6 +939,38 @@ func (g *gen) sourceTargets() {
 		targets: []string{"p/s", "p/a", "p/s", "p/b", "p/b"}}, true)
 }
 
+// the builder started in a sub directory: work dirs at depth 0..2, targets in all
+// forms (y, ./y, ../x/y, /b/y ...), the same local names at the work-dir-relative
+// and at the root-relative place, so that a target resolved against the wrong
+// base picks an existing but different node
+func (g *gen) workDirs() {
+	b := func(n string, deps ...string) decl { return decl{kind: 'b', name: n, a: deps} }
+	files := []bfile{
+		{dir: "a", decls: []decl{{kind: 's', a: []string{"b", "x"}}, b("y", "s"), b("w", "/b/y")}},
+		{dir: "a/b", decls: []decl{{kind: 's', a: []string{"b"}}, b("y"), b("z", "/b/y", "y")}},
+		{dir: "a/b/b", decls: []decl{b("y", "/a/y")}},
+		{dir: "a/x", decls: []decl{b("y", "../y")}},
+		{dir: "b", decls: []decl{b("y"), b("v", "/a/b/y")}},
+	}
+	forms := []string{"y", "./y", "../x/y", "../b/y", "/b/y", "/a/b/y", "b/y", "../../b/y", "/a/../b/y", "/b/v", "z", "/a/y", "/b/./y/"}
+	for _, wd := range []string{"a", "a/b", "a/b/b", "a/x", "b", "a/none"} {
+		for i, t := range forms {
+			g.add(&wsOp{dirs: []string{"a", "b"}, files: files, srcs: []string{"a/s"}, targets: []string{t}, wd: wd}, true)
+			g.rep.Count("work-dir:single-target")
+			for _, u := range forms[i+1:] {
+				if (i+len(u))%3 == 0 {
+					g.add(&wsOp{dirs: []string{"a", "b"}, files: files, srcs: []string{"a/s"}, targets: []string{t, u}, wd: wd, ar: i%2 == 1}, true)
+					g.rep.Count("work-dir:target-pair")
+				}
+			}
+		}
+	}
+	for _, t := range []string{"a/y", "b/y", "a/b/y", "a/b/b/y", "a/x/y"} {
+		g.add(&wsOp{dirs: []string{"a", "b"}, files: files, srcs: []string{"a/s"}, targets: []string{t, "b/v"}}, true)
+		g.rep.Count("work-dir:root")
+	}
+}
+
 // random graphs over several packages
 func (g *gen) randomGraphs(n int, maxRules int) {
 	for i := 0; i < n; i++ {
@@ -1132,7 +1210,7 @@ func main() {
 	rep.Rule = "one op = one scratch workspace (bundle / file_set / sub_builds declarations over 1-3 packages, source files) + targets, " +
 		"built by the real Builder in a child process (every second op with AlwaysRebuild): all graphs of 2 rules over {r0, r1, source, missing} and of 3 (thorough: 4) rules over the rules x target subsets, " +
 		"every declaration permutation x target subset of fixed shapes (diamond, chain, self-loop, 2/4-cycle, cycle behind the memo, dangling, duplicate, output/rule collision, file sets, unnamed) and random 2-3 rule graphs, " +
-		"target lists with source files before, between and after rule targets, sub-build directory strings (., empty, x/.., q, /q, ../q ...) singly and in pairs, random multi-package graphs (duplicates across files, long cycles, dangling, collisions, unnamed), long chains; " +
+		"builders started in work dirs at depth 0..2 with relative, ./, ../ and absolute targets over same-named nodes, target lists with source files before, between and after rule targets, sub-build directory strings (., empty, x/.., q, /q, ../q ...) singly and in pairs, random multi-package graphs (duplicates across files, long cycles, dangling, collisions, unnamed), long chains; " +
 		"distinct = distinct op line; every op is non-trivial (it loads at least one build file)"
 	work := f.Work
 	if work == "" {
@@ -1174,6 +1252,7 @@ func main() {
 		g.subBuilds()
 		g.sameLocalNames(f.Thorough())
 		g.sourceTargets()
+		g.workDirs()
 		g.shapes()
 		g.longChains()
 		if f.Thorough() {
